@@ -7,6 +7,7 @@ for a socket 2; a buffer chunk 1, a frame 2 (a PING more than the PONG that answ
 flag that can still be set pays for the control frame setting it may queue.
 -/
 import SshuttleModel.Lemmas.Fixpoint
+import SshuttleModel.Spec.Measure
 
 namespace Sshuttle.Tunnel
 open Sshuttle.Mux (Frame)
@@ -22,24 +23,6 @@ theorem Dec.same {a a' : Nat} {P : Prop} (h : Dec a a' P) (he : a ≤ a') : P :=
   rcases h with h | ⟨_, h⟩
   · omega
   · exact h
-
-def b2n (b : Bool) (k : Nat) : Nat := if b then 0 else k
-
-def bufMu (k : Nat) (l : List Bytes) : Nat := k * l.flatten.length + l.length
-
-def sMu (s : SockW) : Nat :=
-  bufMu 6 s.buf + b2n s.shutR 1 + b2n s.shutW 1 + (if s.connecting then 1 else 0) + b2n s.exc 1
-
-def wMu (w : MuxW) : Nat := bufMu 2 w.buf + b2n w.shutR 3 + b2n w.shutW 3
-
-def eMu (e : ESock) : Nat := 8 * e.pending.length + b2n e.sawShut 1
-
-def frMu (fr : Frame) : Nat :=
-  2 + 3 * fr.data.length + (if fr.cmd = Generated.CMD_PING then 3 + 3 * fr.data.length else 0)
-
-def qMu : List Frame → Nat
-  | [] => 0
-  | fr :: rest => frMu fr + qMu rest
 
 theorem qMu_append (a b : List Frame) : qMu (a ++ b) = qMu a + qMu b := by
   induction a with
@@ -511,8 +494,6 @@ theorem muxCopyToSock_dec (w : MuxW) (s : SockW) (e : ESock) (r : SendRes) (se :
 
 
 /-! ### the tail of the callback -/
-
-def hMu (p : ProxyS) : Nat := sMu p.sw + wMu p.mw + (if p.ok then 1 else 0)
 
 theorem Dec.both {a a' b b' : Nat} {P Q : Prop} (h1 : Dec a a' P) (h2 : Dec b b' Q) :
     Dec (a + b) (a' + b') (P ∧ Q) := by
